@@ -115,7 +115,7 @@ func (t *T) Count(key string) {
 
 // Do runs one case; nontrivial says whether it counts as non-trivial under the unit's rule.
 func (t *T) Do(in In, nontrivial bool) {
-	fs := t.U.Check(t, in)
+	fs := t.safeCheck(in)
 	t.mu.Lock()
 	t.Evals++
 	t.unitEval[t.U.Name]++
@@ -133,6 +133,20 @@ func (t *T) Do(in In, nontrivial bool) {
 	for _, f := range fs {
 		t.record(f, in)
 	}
+}
+
+// safeCheck converts a panic of the code under test into an oracle finding.
+func (t *T) safeCheck(in In) (fs []Finding) {
+	defer func() {
+		if r := recover(); r != nil {
+			msg := fmt.Sprint(r)
+			if len(msg) > 120 {
+				msg = msg[:120]
+			}
+			fs = []Finding{{Kind: "oracle", Unit: t.U.Name, Class: "panic", Impl: "panic: " + msg}}
+		}
+	}()
+	return t.U.Check(t, in)
 }
 
 func (t *T) record(f Finding, in In) {
@@ -156,7 +170,7 @@ func (t *T) record(f Finding, in In) {
 func (t *T) shrink(f Finding, in In) Finding {
 	cur := append(In(nil), in...)
 	same := func(c In) (Finding, bool) {
-		for _, g := range t.U.Check(t, c) {
+		for _, g := range t.safeCheck(c) {
 			if g.Kind == f.Kind && g.Class == f.Class {
 				return g, true
 			}
@@ -320,7 +334,7 @@ func main() {
 		for _, u := range units {
 			if u.Name == rf.Finding.Unit {
 				t.U = u
-				fs := u.Check(t, rf.Finding.Input)
+				fs := t.safeCheck(rf.Finding.Input)
 				fmt.Printf("replay unit=%s input=%v\n", u.Name, rf.Finding.Input.Pretty())
 				if len(fs) == 0 {
 					fmt.Println("result: no finding on the current tree (implementation, model and oracle agree)")
